@@ -32,24 +32,17 @@ def judge(ctx, obs, stats, prop="C08"):
     for (ln, text, why) in res["rejections"]:
         d = json.loads(text)
         if why.startswith("StuckSelected"):
-            # all answers right, State() still Selected after an accepted deselection: the outside view of known finding F1
+            # all answers right, State() still Selected after an accepted deselection: the outside view of finding F1
+            # (fixed by cbc5287; one signature for all its manifestations, gated or not)
             sig = "%s:StuckSelectedAfterDeselect" % prop.lower()
-            g = groups.setdefault(sig, dict(n=0, first=d, why=why, ungated=0))
+            g = groups.setdefault(sig, dict(n=0, first=d, why=why))
             g["n"] += 1
-            if d["mode"] != "f1gated":
-                g["ungated"] += 1
             continue
         bad = int(why[4:]) if why.startswith("Step") and why[4:].isdigit() and int(why[4:]) > 0 else 0
         syms = d["steps"][bad - 1]["syms"] if bad else []
         sig = "c08:%s:%s:%s:%s" % (d["role"], d["mode"], why if not bad else "step", "+".join(syms))
         g = groups.setdefault(sig, dict(n=0, first=d, why=why))
         g["n"] += 1
-    # F1 needs the supervisor goroutine to lag behind the receive goroutine: outside the gated reproduction it is rare. A
-    # deselection that is ineffective in a sizeable share of the ordinary scenarios is something else and is reported as such.
-    ndesel = sum(1 for line in lines if '"DeselectReq"' in line and '"f1gated"' not in line)
-    for sig, g in list(groups.items()):
-        if sig.endswith("StuckSelectedAfterDeselect") and g.get("ungated", 0) > max(3, ndesel // 50):
-            groups["%s:DeselectIneffective" % prop.lower()] = dict(n=g["ungated"], first=g["first"], why=g["why"])
     for sig, g in sorted(groups.items()):
         ctx.violation("live hsmsss answers differ from the E37 transducer (%s), %d scenario(s)" % (sig, g["n"]),
                       dict(binding="B2 scripted peer + acceptor", signature=sig, occurrences=g["n"], scenario=g["first"]))
@@ -69,11 +62,9 @@ def run(ctx):
                         "orphan Reject.req, data primary W / no W, data secondary, data with foreign session id, control frame with body, "
                         "non-zero PType, undefined SType x2, foreign-sid S9F1; active role adds the Select.rsp status) played with "
                         "barriers or as a burst; distinct = distinct (role, validation, mode, sequence)",
-                   classes=classes, harness_faults=stats["faults"], exhaustive=False, samples=samples,
+                   classes=classes, harness_faults=stats["faults"], select_then_deselect_bursts=stats.get("select_deselect_bursts", 0), exhaustive=False, samples=samples,
                    checker_cmd="vh c08; tlc OracleHsmsSS")
-    ctx.assumptions += ["bursts containing Select.req followed by Deselect.req are not generated (known finding F1 makes later answers racy); "
-                        "that pattern is decided at the supervisor level by C05",
-                        "loopback TCP; T6=3s, T7=30s so that no protocol timer fires inside a scenario",
+    ctx.assumptions += ["loopback TCP; T6=3s, T7=30s so that no protocol timer fires inside a scenario",
                         "when a burst itself ends the connection, answers still queued behind it may be discarded (prefix accepted)"]
 
 
@@ -87,6 +78,6 @@ def selftest(ctx):
     d = json.loads(lines[i2]); d["steps"][0]["rx"] = []; lines[i2] = json.dumps(d)
     open(obs, "w").write("\n".join(lines) + "\n")
     res = common.oracle_pass(ctx, obs, "OracleHsmsSS", nchunks=1)
-    got = sorted(r[0] for r in res["rejections"] if not (r[2] or "").startswith("StuckSelected"))   # (the gated reproduction of known finding F1)
+    got = sorted(r[0] for r in res["rejections"])
     common.log("rejected:", got, "expected", [i1 + 1, i2 + 1])
     return got == [i1 + 1, i2 + 1]
